@@ -132,6 +132,10 @@ impl InstallNodeServiceCtxBuilder {
         if let Some(metrics_port) = self.metrics_port {
             args.push(OsString::from("--metrics-server-port"));
             args.push(OsString::from(metrics_port.to_string()));
+            if metrics_port == 0 {
+                // antnode only accepts "pick a random metrics port" together with this flag
+                args.push(OsString::from("--enable-metrics-server"));
+            }
         }
         if let Some(owner) = self.owner {
             args.push(OsString::from("--owner"));
